@@ -1,6 +1,7 @@
 package storagesc
 
 import (
+	"0chain.net/core/sortedmap"
 	"encoding/hex"
 	"errors"
 	"fmt"
@@ -719,7 +720,8 @@ func (conf *Config) get(key Setting) interface{} {
 }
 
 func (conf *Config) update(changes config.StringMap) error {
-	for key, value := range changes.Fields {
+	for _, key := range sortedmap.NewFromMap(changes.Fields).GetKeys() {
+		value := changes.Fields[key]
 		trimmedKey := strings.TrimSpace(key)
 		trimmedValue := strings.TrimSpace(value)
 		if err := conf.set(trimmedKey, trimmedValue); err != nil {
